@@ -1,6 +1,7 @@
 """C14 — Framed blocking I/O round-trips under any fragmentation and detects truncation."""
 import itertools
 from verifkit.runner import Stream
+from verifkit import runner
 from verifkit import gen
 from verifkit import frameio as F
 
@@ -13,6 +14,7 @@ read_frame reader_any_fragmentation reader_roundtrip reader_clean_end reader_tru
 reader_alloc reader_oversize_rejected
 valCodec_roundtrip decVal_noPanic""".split()]
 PACKAGES = ["hio"]
+DEBUG_TWINS = True
 RULE = ("fread/fwrite scenarios on the real Reader/Writer over scripted std::io::Read/Write: value sequences whose stream is <=12 bytes "
         "(thorough <=15) x ALL compositions of the stream into read sizes x every placement of <=1 Interrupted (thorough <=2); every "
         "truncation point of longer streams x {whole, byte-wise, random} deliveries and all compositions of the short ones; frames with "
@@ -133,6 +135,12 @@ def frag_ops(tier):
             for pl in placements:
                 ml = 100 if (len(parts) + len(pl)) % 2 else max(mls - {100} or {100})
                 ops.append(f"fread {ml} {len(vs) + 2} {gen.hexb(st)} {F.script_tok(with_intr(parts, pl))} #k=frag #p={ptag}")
+        # runs of Interrupted at one place (before the first frame, between frames, inside a prefix / payload, before the end-of-stream read):
+        # retrying is unbounded, however long the run
+        parts = [1] * len(st)
+        for at in sorted({0, 1, 3, 4, 5, len(st) - 1, len(st)} & set(range(len(st) + 1))) + ([4 + len(F.payload(vs[0]))] if len(vs) > 1 else []):
+            for n in (2, 7, 8, 9, 10, 17, 64, 300):
+                ops.append(f"fread 100 {len(vs) + 2} {gen.hexb(st)} {F.script_tok(with_intr(parts, (at,) * n))} #k=frag #p={ptag}")
     return ops
 
 
